@@ -736,6 +736,12 @@ impl ProtocolState {
 
     fn apply_disconnect_completion(&mut self, operation: &ClientOperation) -> GneissResult<()> {
         if let MqttPacket::Disconnect(_) = &*operation.packet {
+            if self.state == ProtocolStateType::Disconnected {
+                // the disconnect is being discarded because the connection is already gone (connection-closed
+                // handling, or refusal at intake); that is not a failure of whatever is discarding it
+                return Ok(());
+            }
+
             if self.state == ProtocolStateType::PendingDisconnect {
                 self.state = ProtocolStateType::Halted;
             }
